@@ -2,6 +2,7 @@ import RsMatterVerif.Lemmas.Chunk
 import RsMatterVerif.Lemmas.ChunkAcc
 import RsMatterVerif.Lemmas.ChunkEvents
 import RsMatterVerif.Lemmas.ChunkCursor
+import RsMatterVerif.Lemmas.ChunkWf
 /-!
 # C14 — a chunked answer carries the complete result exactly once
 
@@ -745,6 +746,63 @@ theorem C14_full_fails : ¬ C14_full := by
   injection hc with hc
   subst hc
   simp [selOf, selected, yielded, AttrReq.unchanged, reassemble, content, plain] at hre
+
+/-! ## every message is well-formed on its own -/
+
+/-- **every message of every answer is well-formed on its own** (audit concern 6): there are flags
+`a` / `e` (the message contains the attribute / the event array) that account for its length
+(`Accounts`, as in `message_size_accounts`) and for which the TLV containers the message opens and
+closes (`msgToks`: ReportData struct, [subscription id], AttributeReports array with one struct per
+report, EventReports array, structural array ends, trailer with the end of the array that is still
+open + MoreChunkedMessages, or [SuppressResponse], revision, struct end) form ONE top-level struct in
+which every container is closed by its own `end_container` and the struct by the last token — with or
+without subscription id, with or without SuppressResponse.  (The attribute reports of a message are
+complete reports at byte level, also after a rewind + send: `cursor_messages`.) -/
+theorem messages_wellformed {c : Cfg} {r : Req} {cs : List ChunkOut} (hw : c.WF) (h : respond c r = .ok cs) :
+    ∀ ch ∈ cs, ∃ a e, (a = true → r.attrs.isSome = true) ∧ (e = true → r.events.isSome = true) ∧
+      Accounts c a e ch ∧ ∀ subId suppress, wellFormed (msgToks subId suppress a e ch) = true := by
+  obtain ⟨s2, x2, hcs⟩ := respond_acc hw h
+  intro ch hch
+  rcases hcs with ⟨rfl, _⟩ | rfl
+  · cases hch
+  · simp only [List.mem_reverse, List.mem_cons] at hch
+    rcases hch with rfl | hch
+    · refine ⟨!s2.fresh, r.events.isSome, ?_, (fun h0 => h0), x2.fin, ?_⟩
+      · intro hf
+        exact x2.freshT (by simpa using hf)
+      · intro subId suppress
+        exact msgToks_wellFormed _ _ _ _ _ (by simp)
+    · obtain ⟨_, a, e, h1, h2, h3, h4⟩ := x2.done ch hch
+      refine ⟨a, e, h1, h2, h3, fun subId suppress => msgToks_wellFormed _ _ _ _ _ ?_⟩
+      intro _
+      cases hb : ch.bare with
+      | true => exact .inl (h4 hb).1
+      | false =>
+        simp only [ChunkOut.bare, Bool.and_eq_false_iff, List.isEmpty_eq_false_iff] at hb
+        rcases hb with hb | hb
+        · left
+          cases ha : a with
+          | true => rfl
+          | false => exact absurd (h3.2.1 ha) hb
+        · right
+          cases he : e with
+          | true => rfl
+          | false => exact absurd (h3.2.2 he) hb
+
+set_option maxRecDepth 16000 in
+/-- the token view of the answer to `sampleReq` (a read: no subscription id; SuppressResponse on the
+last message): messages 1–3 carry the attribute array, message 4 ends it and starts the event array,
+message 5 continues the event array -/
+example : (respond readCfg sampleReq).toOption.map (fun cs =>
+      ((cs.zip [(true, false), (true, false), (true, false), (true, true), (false, true)]).map
+        fun (ch, ae) => msgToks false true ae.1 ae.2 ch).map fun ts => (ts.length, wellFormed ts)) =
+    some [(9, true), (15, true), (9, true), (14, true), (9, true)] := by rfl
+
+/-- the check is not vacuous: a non-final message without any array (the trailer closes an array
+that was never opened, so the struct end comes one token early) is not well-formed, nor is a message
+with something behind the struct end -/
+example : wellFormed (msgToks false false false false { pieces := [], size := 0, more := true }) = false ∧
+    wellFormed [.op, .leaf, .cl, .leaf] = false ∧ wellFormed [.op, .op, .leaf, .cl] = false := by decide
 
 /-! ## cursor level: list index, rewind position, partial writes (`Model/ChunkCursor.lean`)
 
